@@ -12,10 +12,11 @@ echo "== suite in the worktree (change applied)"
 echo "== demo on unchanged /repo"; PYTHONPATH=/repo/src PYTHONHASHSEED=0 /venv/bin/python $OUT/demo.py > /tmp/mut/$ID.demo0 2>&1; echo "rc=$? $(tail -1 /tmp/mut/$ID.demo0 | cut -c1-160)"
 git apply $OUT/patch.diff || { echo "patch does not apply to /repo"; exit 2; }
 echo "== demo with change"; PYTHONPATH=/repo/src PYTHONHASHSEED=0 /venv/bin/python $OUT/demo.py > /tmp/mut/$ID.demo1 2>&1; echo "rc=$? $(tail -1 /tmp/mut/$ID.demo1 | cut -c1-160)"
+rm -rf /verif/build/evidence.keep; cp -r /verif/evidence /verif/build/evidence.keep   # evidence of a changed tree is not kept
 for P in "$@"; do
   echo "== check $P with change"
   (cd /verif && ./check $P --tier quick 2>&1 | grep -v '^KNOWN' | tail -2 | cut -c1-300)
 done
-git checkout -- . ; git status --short | head -3
+cp /verif/build/evidence.keep/*.json /verif/evidence/; git checkout -- . ; git status --short | head -3
 echo "== restored"
 mkdir -p /verif/seeded/$NAME && cp $OUT/patch.diff $OUT/demo.py $OUT/meta.json /verif/seeded/$NAME/
